@@ -33,3 +33,20 @@ void *memchr(const void *s, int c, size_t n) { const unsigned char *p = s; for (
 int isxdigit(int c) { return isdigit(c) || (c >= 'a' && c <= 'f') || (c >= 'A' && c <= 'F'); }
 int ispunct(int c) { return isprint(c) && !isalnum(c) && c != ' '; }
 int iscntrl(int c) { return (c >= 0 && c < 0x20) || c == 0x7f; }
+size_t strspn(const char *s, const char *a) { size_t n = 0; while (s[n] && strchr(a, s[n])) n++; return n; }
+size_t strcspn(const char *s, const char *r) { size_t n = 0; while (s[n] && !strchr(r, s[n])) n++; return n; }
+char *strpbrk(const char *s, const char *a) { for (; *s; s++) if (strchr(a, *s)) return (char *) s; return 0; }
+char *strncpy(char *d, const char *s, size_t n) { size_t i = 0; for (; i < n && s[i]; i++) d[i] = s[i]; for (; i < n; i++) d[i] = 0; return d; }
+char *strncat(char *d, const char *s, size_t n) { char *r = d; while (*d) d++; while (n-- && *s) *d++ = *s++; *d = 0; return r; }
+size_t strnlen(const char *s, size_t n) { size_t i = 0; while (i < n && s[i]) i++; return i; }
+void *malloc(size_t);
+char *strdup(const char *s) { char *r = malloc(strlen(s) + 1); return r ? strcpy(r, s) : 0; }
+char *strndup(const char *s, size_t n) { size_t l = strnlen(s, n); char *r = malloc(l + 1); if (r) { size_t i; for (i = 0; i < l; i++) r[i] = s[i]; r[l] = 0; } return r; }
+void *memrchr(const void *s, int c, size_t n) { const unsigned char *p = s; while (n--) if (p[n] == (unsigned char) c) return (void *) (p + n); return 0; }
+int isblank(int c) { return c == ' ' || c == '\t'; }
+int isgraph(int c) { return c > 0x20 && c <= 0x7e; }
+unsigned long strtoul(const char *s, char **end, int base) { return (unsigned long) strtol(s, end, base); }
+int strcasecmp(const char *a, const char *b) { while (*a && tolower((unsigned char) *a) == tolower((unsigned char) *b)) a++, b++; return tolower((unsigned char) *a) - tolower((unsigned char) *b); }
+int strncasecmp(const char *a, const char *b, size_t n) { while (n && *a && tolower((unsigned char) *a) == tolower((unsigned char) *b)) a++, b++, n--; return n ? tolower((unsigned char) *a) - tolower((unsigned char) *b) : 0; }
+void *memccpy(void *d, const void *s, int c, size_t n) { unsigned char *p = d; const unsigned char *q = s; while (n--) { *p++ = *q; if (*q++ == (unsigned char) c) return p; } return 0; }
+int bcmp(const void *a, const void *b, size_t n) { return memcmp(a, b, n); }
